@@ -164,6 +164,8 @@ def archetypes(tier, seed):
         out.append(homo(rng, d, ru=i % len(RU_DIRECTED)))
         out.append(homo(rng, d, ru=(i + 3) % len(RU_DIRECTED), start_end=True))
     out.append(homo(rng, dists[0], ru=0, idn=1))
+    out.append(homo(rng, dists[0], ru=8))               # descriptor-only branch right after a branch with atoms: ')(' between two descriptors' atoms
+    out.append(homo(rng, dists[1], ru=9, prefix="CC", suffix="Br"))
     out.append(homo(rng, dists[1], ru=0, idn=0))          # id 0 is a legal id (and falsy in Python): plain prefix / suffix get their descriptors inserted
     b0 = block(rng, dists[0], dists[1], connector="CO")
     for e in b0["elements"]:
